@@ -346,6 +346,17 @@ fn stress_desc(src: &mut Src) -> (MDesc, &'static str) {
         keys::key_xpub((i / per) % keys::N_ACCOUNTS, ((i % per) as u32) / keys::N_INDEX, ((i % per) as u32) % keys::N_INDEX, false)
     };
     let key = |i: usize, tap: bool| if i < 12 { pkx(i, tap) } else { xk(i - 12) };
+    if src.chance(1, 8) {
+        // a small leaf at the bottom of a deep chain (control block of 253+ bytes from depth 7
+        // on); the world of this shape holds only that leaf's key, so the spend goes through it
+        let depth = src.range(5, 40);
+        let mut t = MTree::Leaf(Node::Check(b(Node::PkK(keys::key_xonly(0)))));
+        for i in 0..depth {
+            let sib = MTree::Leaf(Node::Check(b(Node::PkK(keys::key_xonly(1 + i % 9)))));
+            t = if src.bool() { MTree::Branch(Box::new(t), Box::new(sib)) } else { MTree::Branch(Box::new(sib), Box::new(t)) };
+        }
+        return (MDesc::Tr(keys::key_xonly(11), Some(t)), "deep-small-leaf");
+    }
     let kind = *src.pick(&[DescKind::Wsh, DescKind::Wsh, DescKind::Sh, DescKind::ShWsh, DescKind::TrTree]);
     let tap = kind == DescKind::TrTree;
     let pk = |i: usize| Node::Check(b(Node::PkK(key(i, tap))));
@@ -452,7 +463,7 @@ fn stress_desc(src: &mut Src) -> (MDesc, &'static str) {
 impl Check for C09 {
     fn id(&self) -> &'static str { "C09" }
     fn rule(&self) -> String {
-        "lane `measure`: random descriptors of every output type (sane and consensus-only scripts, compressed/uncompressed/x-only/xpub keys) x random worlds x {non-malleable, malleable}; lane `static`: random miniscripts (4 contexts, sane and consensus-only): for EVERY sub-expression the library's static sat/dissat figures (witness bytes, witness elements, scriptSig bytes, and pre-taproot static_ops + max_exec_op_count vs opcodes counted in the independently encoded script + keys of executed CHECKMULTISIGs) must be >= the exact worst case over the canonical (dis)satisfactions of the specification's table, computed by an own recursion (thresh by exact DP over which k children are satisfied); lane `canon`: ALL canonical satisfactions of random miniscripts (enumerated from the specification's table by `mirror::canon`, capped at 24 per node keeping the largest) are executed on the reference interpreter with symbolic signatures; opcode count, stack depth and element count of every accepted run are bounded by the static figures (this reaches expensive paths that the satisfier never prefers); lane `stress`: scripts built near each limit (thresholds with 10-84 children, combinations of 10-20-key multisigs, multi_a with 20-70 keys, or_i / pk_h / and_b chains of 20-70 links, threshold/hash mixes, tap leaves up to 30 levels deep) x full and partial worlds. Every satisfaction the library produces is put into a real transaction with real signatures and executed by the reference interpreter with a trace; checked: script_size()==encoding length; witness elements+1 <= max_satisfaction_witness_elements(); witness/scriptSig bytes <= max_satisfaction_size() (its stated conventions); txin weight increase (rust-bitcoin segwit_weight/legacy_weight) <= max_weight_to_satisfy(); consensus-counted non-push opcodes <= static_ops+max_exec_op_count; max stack+altstack <= max_witness_stack_count+max_exec_stack_count; and whenever the library accepted the script (default rules resp. consensus rules) the execution passes with standardness resp. consensus limits enforced (201 ops, 1000 stack, 520/80-byte items, 100 items, 3600/10000/520-byte scripts, 1650-byte scriptSig). Non-trivial = a measured value >= 80% of its static bound, or a stress script; distinct by (descriptor, world, mode).".into()
+        "lane `measure`: random descriptors of every output type (sane and consensus-only scripts, compressed/uncompressed/x-only/xpub keys) x random worlds x {non-malleable, malleable}; lane `static`: random miniscripts (4 contexts, sane and consensus-only): for EVERY sub-expression the library's static sat/dissat figures (witness bytes, witness elements, scriptSig bytes, and pre-taproot static_ops + max_exec_op_count vs opcodes counted in the independently encoded script + keys of executed CHECKMULTISIGs) must be >= the exact worst case over the canonical (dis)satisfactions of the specification's table, computed by an own recursion (thresh by exact DP over which k children are satisfied); lane `canon`: ALL canonical satisfactions of random miniscripts (enumerated from the specification's table by `mirror::canon`, capped at 24 per node keeping the largest) are executed on the reference interpreter with symbolic signatures; opcode count, stack depth and element count of every accepted run are bounded by the static figures (this reaches expensive paths that the satisfier never prefers); lane `stress`: scripts built near each limit (thresholds with 10-84 children, combinations of 10-20-key multisigs, multi_a with 20-70 keys, or_i / pk_h / and_b chains of 20-70 links, threshold/hash mixes, tap leaves up to 30 levels deep, a small leaf at depth 5-40 spent by a signer who holds only its key) x full and partial worlds. Every satisfaction the library produces is put into a real transaction with real signatures and executed by the reference interpreter with a trace; checked: script_size()==encoding length; witness elements+1 <= max_satisfaction_witness_elements(); witness/scriptSig bytes <= max_satisfaction_size() (its stated conventions); txin weight increase (rust-bitcoin segwit_weight/legacy_weight) <= max_weight_to_satisfy(); consensus-counted non-push opcodes <= static_ops+max_exec_op_count; max stack+altstack <= max_witness_stack_count+max_exec_stack_count; and whenever the library accepted the script (default rules resp. consensus rules) the execution passes with standardness resp. consensus limits enforced (201 ops, 1000 stack, 520/80-byte items, 100 items, 3600/10000/520-byte scripts, 1650-byte scriptSig). Non-trivial = a measured value >= 80% of its static bound, or a stress script; distinct by (descriptor, world, mode).".into()
     }
     fn assumptions(&self) -> Vec<String> { vec!["sizes and weights are measured on the executed witness with every signature stretched to the documented worst case (72-byte ECDSA element = 73 with its push, 65-byte Schnorr): the library ranks alternatives by assumed sizes, so the structure is the one it would return for such signatures".into()] }
     fn lanes(&self, tier: Tier) -> Vec<(&'static str, usize, usize)> {
@@ -472,12 +483,40 @@ impl Check for C09 {
             let mut cfg = if src.bool() { Cfg::new(ctx, size) } else { Cfg::sane(ctx, size) };
             cfg.allow_uncompressed = true;
             cfg.or_boost = *src.pick(&[1, 1, 3]);
-            let node = gen::gen_ms(src, &cfg);
+            let mut node = gen::gen_ms(src, &cfg);
+            if ctx != Ctx::Tap && src.chance(1, 16) {
+                // a long run of one-opcode wrappers: scripts around the 201-opcode limit
+                let nw = src.range(150, 260);
+                for _ in 0..nw {
+                    node = Node::ZeroNotEqual(b(node));
+                }
+            }
             rep.desc = format!("{:?} {}", ctx, crate::mirror::ast::print(&node, true));
             macro_rules! go {
                 ($c:ty) => {{
-                    match glue::ms_from_node::<$c>(&node, Level::Insane, true) {
-                        Ok(ms) => check_static(&ms, ctx)?,
+                    match Miniscript::<DK, $c>::from_str_with_validation_params(&crate::mirror::ast::print(&node, true), &miniscript::ValidationParams::MAX) {
+                        Ok(ms) => {
+                            // what the library declares within the limits must be within them:
+                            // the exact worst case over canonical satisfactions is a lower bound
+                            // of any correct static figure
+                            if ctx != Ctx::Tap {
+                                if let (Some(sd), Ok(sc)) = (crate::mirror::satsize::sizes(&node, ctx), crate::mirror::encode::encode(&node, ctx)) {
+                                    if let (Some(sat), Some(ops)) = (sd.sat, crate::mirror::satsize::count_ops(&sc)) {
+                                        if ops + sat.mops > 201 {
+                                            rep.class("static:over-201-ops");
+                                            if ms.within_resource_limits() {
+                                                return fail(&format!("declared-within-limits/op-count/{:?}", ctx), format!("within_resource_limits() is true for a script whose satisfaction executes {} opcodes (limit 201): {}", ops + sat.mops, rep.desc));
+                                            }
+                                            use miniscript::policy::Liftable;
+                                            if ms.lift().is_ok() {
+                                                return fail(&format!("lift-over-limit/{:?}", ctx), format!("lift() succeeds for a script that no witness can spend within the 201-opcode limit ({} opcodes): {}", ops + sat.mops, rep.desc));
+                                            }
+                                        }
+                                    }
+                                }
+                            }
+                            check_static(&ms, ctx)?
+                        }
                         Err(_) => {
                             rep.class("rejected-by-library");
                             0
@@ -555,6 +594,14 @@ impl Check for C09 {
             }
             if let Some(o) = olders.iter().max() {
                 world.sequence = *o;
+            }
+        }
+        if sname == "deep-small-leaf" {
+            world.keys.clear();
+            if let Ok(kb) = key_bytes(&keys::key_xonly(0), d.ctx()) {
+                if let Some(x) = keys::xonly_of(&kb) {
+                    world.keys.insert(x);
+                }
             }
         }
         let mall = src.chance(1, 3);
